@@ -215,7 +215,18 @@ def assemble(src):
         img = bytes(p.get_binary_array())
     except Exception:  # noqa
         return None
-    return p.name, int(getattr(p.origin, "int", 0) or 0), img
+    origin = int(getattr(p.origin, "int", 0) or 0)
+    # the address the image was assembled for: the listing address of the first statement that emits a byte
+    # (Program.origin must be that address; a load address taken from anywhere else misplaces the program)
+    try:
+        for st in p.get_statements():
+            row = str(st)
+            if row.startswith("$") and row[6:16].strip():
+                origin = int(row[1:5], 16)
+                break
+    except Exception:  # noqa
+        pass
+    return p.name, origin, img
 
 
 def mkdir():
@@ -564,7 +575,7 @@ def big_tape():
     return impl_tape([("BIG%d" % i, "BIN", 2, 0, 0x0E00, 0x0E00, bytes(60000)) for i in range(3)])
 
 
-def target_contents(rng, tier):
+def target_contents(rng, tier, rep=None):
     """the pre-existing target classes of the C10 matrix: name -> bytes | None"""
     u = set()
     tape = impl_tape([gen_cfile(rng, tier, unique=u) for _ in range(rng.choice([1, 2]))])
@@ -580,16 +591,32 @@ def target_contents(rng, tier):
     bigarb = bytearray(rng.randrange(256) for _ in range(2000)) * 90
     for e in range(72):
         bigarb[78848 + 32 * e] = rng.choice([0x00, 0xFF])
+    # where a disk keeps its allocation table: random bytes, or tables no disk can have (zeros - what a recording of
+    # zero-filled data holds there -, one value throughout, a granule linked to itself, a link to a free granule)
+    pats = ["zeros", "self", "const", "tofree", "random"]     # (longer-than-a-disk content with a table a disk could have is outside the model: DESIGN 11)
+    fat = rng.choice(pats) if rep is None else pats[rep % len(pats)]
+    if fat != "random":
+        tbl = {"zeros": [0] * 68, "const": [rng.randrange(1, 68)] * 68}.get(fat)
+        if tbl is None:
+            tbl = [0xFF] * 68
+            g = rng.randrange(68)
+            h = (g + 1 + rng.randrange(66)) % 68
+            if fat == "self":
+                tbl[g] = g
+            else:
+                tbl[g] = h
+        bigarb[78592:78592 + 68] = bytes(tbl)
     # a genuine disk image one of whose files holds the bytes of a tape recording (a .cas kept on a disk)
     inner = impl_tape([("INNER", "BIN", 2, 0, 0x0E00, 0x0E00, bytes(rng.randrange(256) for _ in range(rng.choice([1, 200, 600]))))])
     disktape = impl_disk([("TAPEIMG", "BIN", 2, 0, 0x0E00, 0x0E00, inner)])
     t = {"absent": None, "empty": b"", "cassette": tape, "disk": rng.choice([disk, disk, disktape]), "rawbin": raw,
-         "arbitrary": rng.choice(arb), rng.choice(["bigraw", "bigarbitrary"]): None}
+         "arbitrary": rng.choice(arb), ("bigarbitrary" if rep is not None and rep < 4 else rng.choice(["bigraw", "bigarbitrary"])): None}
     t = {k: (bigraw if k == "bigraw" else bytes(bigarb) if k == "bigarbitrary" else v) for k, v in t.items()}
     if tier == "thorough":
         t["arbitrary2"] = arb[2]
         t["arbitrary3"] = arb[3]
         t["bigtape"] = big_tape()
+        t["bigarbitrary"] = bytes(bigarb)
     return t
 
 
@@ -632,8 +659,8 @@ def c10_check_case(pid, drv, rep, case, obs, hist):
 def c10_cases(rng, tier):
     cases = []
     reps = 2 if tier == "quick" else 8
-    for _ in range(reps):
-        tc = target_contents(rng, tier)
+    for rep_i in range(reps):
+        tc = target_contents(rng, tier, rep_i)
         base = {"p.asm": hx(PROG.encode()), "src.img": hx(impl_tape([SRC_FILE]))}
         for tool in ("asm", "futil"):
             for kind in KINDS:
@@ -696,7 +723,7 @@ def inproc_history(kind, ops):
     d = mkdir()
     path = os.path.join(d, "h.img")
     snaps = []
-    listing = lambda v: [(f.name, f.extension, f.type.int, f.data_type.int, f.load_addr.int, f.exec_addr.int, bytes(f.data)) for f in v.coco_file_list]
+    listing = lambda v: [(f.name, f.extension, f.type.int, f.data_type.int, f.load_addr.int, f.exec_addr.int, bytes(f.data)) for f in v.list_files()]
     try:
         v = VirtualFile(SourceFile(path, file_type=SFT.BINARY), vk)
         v.open_virtual_file()
@@ -742,6 +769,12 @@ def gen_history(rng, tier, kind):
                 f = f[:6] + (f[6][:2000],)
                 need = 1
             budget -= need
+        # a name stored before may be stored again (a rebuilt program under the same name, GAME.BAS next to GAME.BIN):
+        # both files are kept, in order
+        prev = [o[1] for o in ops if o[0] == "A"]
+        if prev and rng.random() < 0.2:
+            o = rng.choice(prev)
+            f = (o[0],) + ((f[1],) if rng.random() < 0.5 else (o[1],)) + tuple(f[2:])
         ops.append(("A", f))
         if rng.random() < 0.45:
             ops.append(("S",))
@@ -829,13 +862,17 @@ def c09_cli_cases(rng, tier, n):
     for i in range(n):
         kind = "cas" if i % 2 == 0 else "dsk"
         u = set()
+        names_used = set()
         steps = []
         files = {}
         for j in range(rng.choice([2, 3, 3, 4])):
             name = gen_name(rng)
             while canon(name) in u:
                 name = gen_name(rng)
+            if u and rng.random() < 0.2:
+                name = rng.choice(sorted(names_used))         # the same program name appended again
             u.add(canon(name))
+            names_used.add(name)
             size = rng.choice(cl if kind == "cas" else dl)
             files["p%d.asm" % j] = hx(prog_of_size(name, size, rng.choice([0x0E00, 0x10, 0x7F00, 0x100]), rng.randrange(2)).encode())
             steps.append({"tool": "asm", "kinds": [kind], "targets": {kind: "t.img"}, "append": True, "prog": "p%d.asm" % j})
@@ -1063,6 +1100,10 @@ def program_pool(rng):
         ("markers", "  FCB $55,$3C,$00,$0F,$55,$3C,$01,$FF,$55,$3C,$FF,$00\n"),
         ("branch", "START BRA NEXT\n  NOP\nNEXT LDA <$10\n  STA >$0400\n  RTS\n"),
         ("jsr", "START JSR SUB\n  RTS\nSUB LDB #$FF\n  RTS\n"),
+        # the location counter set again before the first byte: the image is assembled for the last of them
+        ("org2", "  ORG $2000\nSTART JMP NEXT\nNEXT RTS\n"),
+        ("orgequ", "SCREEN EQU $0400\n  ORG $3F00\nSTART LDX #SCREEN\n  JMP START\n"),
+        ("org3", "  ORG 0\n  ORG $7000\nSTART JSR SUB\nSUB RTS\n"),
     ]
     origins = [None, "$0E00", "$10", "$00FF", "256", "$7F00", "$FF00", "$0001", "3584", "$0600"]
     names = ["A", "hi", "Hello", "GAMEDATA", "lowercas", "MixedCase9", "ABCDEFGHIJKL", "x1", "Z", "prog12345678"]
